@@ -687,10 +687,12 @@ func (r *c08Run) famHashMismatch(v int) {
 	}
 	mk(a, "hash-A", "attr-A", 10) // a: nonce 1
 	mk(a, "hash-S", "attr-A", 10) // a: nonce 2
+	mk(a, "hash-E", "attr-A", 10) // a: nonce 3 (the other creator's nonce 3 has an EMPTY hash)
 	for bi, b := range bs {
 		s.expect(s.grantAll(b, tok), "grant-second-creator")
 		mk(b, "hash-B", "attr-B", 10) // b: nonce 1, other hash
 		mk(b, "hash-S", "attr-B", 10) // b: nonce 2, same hash, other attributes
+		mk(b, "", "attr-B", 10)       // b: nonce 3, EMPTY hash (a's nonce 3 has one): different hashes, both directions must be rejected
 		route := []string{"same-shard", "cross-shard"}[bi]
 		note := func(sr *stepResult, how string) {
 			st := "skipped"
@@ -719,6 +721,27 @@ func (r *c08Run) famHashMismatch(v int) {
 				}
 			} else {
 				note(sr, how)
+			}
+		}
+		// nonce 3: an empty hash on one side is still a different hash - both directions, single and multi
+		for _, dir := range [][2][]byte{{b, a}, {a, b}} {
+			for _, how := range []string{"single", "multi"} {
+				var sr *stepResult
+				if how == "single" {
+					sr = s.tx(dir[0], dir[0], "ESDTNFTTransfer", bigGas, tok, be(3), be(1), dir[1])
+				} else {
+					sr = s.tx(dir[0], dir[0], "MultiESDTNFTTransfer", bigGas, dir[1], be(1), tok, be(3), be(1))
+				}
+				if srOK(sr) && len(sr.NewMsgs) > 0 {
+					for _, d := range s.deliverNew(sr) {
+						note(d, how+"-empty-hash-delivery")
+					}
+					for _, mm := range sr.NewMsgs {
+						note(s.refund(mm.ID), how+"-empty-hash-refund")
+					}
+				} else {
+					note(sr, how+"-empty-hash")
+				}
 			}
 		}
 		// the same with the return-after-error flag (the route of a refund): a different hash must still be rejected.
